@@ -48,29 +48,39 @@ def rangeSpec (s e : Int) : List Int := (List.range (e - s).toNat).map fun (k : 
 def stamped (now : Int) (snap : List Msg) : List Rec :=
   (recs snap).map fun r => { vals := .time now 0 :: r.vals, retr := r.retr, et := etOf now }
 
-/-- what round `k` emits for its own snapshot: every record with the clock reading prepended, flag kept, event
-    time = the reading; the source's own watermarks stay where they are -/
-def body (now : Int) (snap : List Msg) : List Msg :=
-  snap.map fun
-    | .data r => .data { vals := .time now 0 :: r.vals, retr := r.retr, et := etOf now }
-    | .wm w => .wm w
+/-- a snapshot message as round `now` reports it: a record gets the clock reading prepended, keeps its flag and gets
+    the reading as event time; the source's own watermarks stay where they are -/
+def bodyMsg (now : Int) : Msg → Msg
+  | .data r => .data { vals := .time now 0 :: r.vals, retr := r.retr, et := etOf now }
+  | .wm w => .wm w
+
+/-- what a round emits for its own snapshot -/
+def body (now : Int) (snap : List Msg) : List Msg := snap.map (bodyMsg now)
 
 /-- the undo of a snapshot reported at `prev`, emitted at `now`: every reported record once, with the inverted flag
-    (newest first) -/
+    (newest first) and the event time of the round that emits it -/
 def undo (prev now : Int) (snap : List Msg) : List Msg :=
   ((stamped prev snap).reverse).map fun r => .data { vals := r.vals, retr := !r.retr, et := etOf now }
 
-/-- round `k` over the snapshots `snaps` (a total function of the *list* of snapshots, no state):
-    undo of snapshot `k−1` (nothing in round 0), snapshot `k`, watermark -/
+/-- the undo that opens round `k`: nothing in round 0, else the undo of snapshot `k − 1` -/
+def undoBefore (clock : Nat → Int) (snaps : List (List Msg)) : Nat → List Msg
+  | 0 => []
+  | j + 1 => undo (clock j) (clock (j + 1)) (snaps.getD j [])
+
+/-- round `k` over the snapshots `snaps` (a function of the *list* of snapshots, no state):
+    undo of snapshot `k − 1`, snapshot `k`, watermark -/
 def round (clock : Nat → Int) (snaps : List (List Msg)) (k : Nat) : List Msg :=
-  (match k with
-   | 0 => []
-   | j + 1 => undo (clock j) (clock k) (snaps.getD j [])) ++
-  body (clock k) (snaps.getD k []) ++ [.wm (clock k)]
+  undoBefore clock snaps k ++ body (clock k) (snaps.getD k []) ++ [.wm (clock k)]
 
 /-- the first `n` rounds -/
-def rounds (clock : Nat → Int) (snaps : List (List Msg)) : Nat → List Msg
-  | 0 => []
-  | n + 1 => rounds clock snaps n ++ round clock snaps n
+def rounds (clock : Nat → Int) (snaps : List (List Msg)) (n : Nat) : List Msg :=
+  (List.range n).flatMap (round clock snaps)
+
+/-- relative to the last watermark `w` seen so far: every later record carries an event time strictly above it
+    (no late data, property C18's notion) and watermarks strictly increase -/
+def Timely : Option Int → List Msg → Prop
+  | _, [] => True
+  | w, .data r :: ms => (∀ W, w = some W → ∃ e, r.et = some e ∧ W < e) ∧ Timely w ms
+  | w, .wm t :: ms => (∀ W, w = some W → W < t) ∧ Timely (some t) ms
 
 end Octo.TvfSpec
